@@ -39,6 +39,8 @@ CONSTANTS
   MaxDepth = 100
   Level = 2
   Kinds = {"%s"}
+  PlanSet = %s
+  MinMut = %d
 INVARIANT NeverRaisesOutOfService
 INVARIANT OthersUndisturbed
 INVARIANT FailedMeansClosed
@@ -54,6 +56,8 @@ CONSTANTS
   MaxDepth = 100
   Level = 2
   Kinds = {"server", "client"}
+  PlanSet = {}
+  MinMut = 0
 CONSTRAINT TraceOK
 INVARIANT NeverRaisesOutOfService
 INVARIANT OthersUndisturbed
@@ -61,7 +65,7 @@ INVARIANT FailedMeansClosed
 CHECK_DEADLOCK FALSE
 """
 
-ACTIONS = ["Plan", "MutMsg", "MutFlip", "MutDrop", "MutInsert", "MutJunk", "MutTruncate", "Start", "Deliver", "PeerClose",
+ACTIONS = ["Plan", "MutMsg", "MutNum", "MutFlip", "MutDrop", "MutInsert", "MutJunk", "MutTruncate", "Start", "Deliver", "PeerClose",
            "Service", "Settle"]
 _STEP = re.compile(r"\\\* <(.*?) line \d+, col \d+ to line \d+, col \d+ of module \w+>\nSTATE_\d+ ==\s*\n(.*?)\n\n", re.S)
 
@@ -117,6 +121,18 @@ def action_counts(prefix):
                         k = lab.split('"')[1]
                         kinds[k] = kinds.get(k, 0) + 1
     return counts, kinds
+
+
+def num_counts(prefix):
+    """how often each numeric field was broken (MutNum(c, field, j))"""
+    out = {}
+    for fn in glob.glob(prefix + "*"):
+        with open(fn) as f:
+            for ln in f:
+                if ln.startswith("\\* <MutNum("):
+                    k = ln.split('"')[1]
+                    out[k] = out.get(k, 0) + 1
+    return out
 
 
 # ---------------------------------------------------------------- the programs under test on in-memory sockets
@@ -346,14 +362,19 @@ def run_c32(ctx):
     os.makedirs(work + "/sim")
     nbeh = int(os.environ.get("VF_C32_N", 0)) or ctx.pick(600, 18000)
     workers = env.NCPU
-    # three quarters of the behaviours exercise the server, one quarter the client (separate simulations:
-    # TLC draws initial states uniformly and the server has far more of them)
-    for kd, share in (("server", 3), ("client", 1)):
-        res = tlc.run("Malformed", SIM_CFG % kd, spec_dir=SPEC_DIR,
-                      simulate={"num": max(1, nbeh * share // (4 * workers)), "depth": 26, "file": prefix + kd[0]},
+    # three quarters of the behaviours exercise the server, one quarter the client (separate simulations: TLC draws
+    # initial states uniformly and the server has far more of them); a further quarter as many behaviours per side
+    # tamper with numeric fields only (Content-Length, chunk size, status, version x byte classes)
+    all_plans = '{"msg", "num", "flip", "drop", "insert", "junk", "truncate"}'
+    runs = [("server", "s", all_plans, 0, 3 * nbeh // 4), ("client", "c", all_plans, 0, nbeh // 4),
+            ("server", "n", '{"num"}', 1, nbeh // 4), ("client", "m", '{"num"}', 1, nbeh // 8)]
+    for kd, tag, plans, minmut, n in runs:
+        res = tlc.run("Malformed", SIM_CFG % (kd, plans, minmut), spec_dir=SPEC_DIR,
+                      simulate={"num": max(1, n // workers), "depth": 26, "file": prefix + tag},
                       seed=ctx.seed + 1, deadlock=False, workers=workers, extra_env={"MALFORMED_TABLE": table_path},
                       tag="c32sim", timeout=3000)
-        ctx.add_model(res, "Malformed-simulate/" + kd, {"behaviours": nbeh * share // 4, "depth": 26, "MaxMut": 2, "MaxPieces": 3})
+        ctx.add_model(res, "Malformed-simulate/%s/%s" % (kd, "num" if minmut else "all"),
+                      {"behaviours": n, "depth": 26, "MaxMut": 2, "MaxPieces": 3})
         if not res.ok:
             ctx.diverge(Divergence("C32", "model", res.error_name or res.error, "Malformed", "specification property violated in the model",
                                    steps=[{"action": a, "state": s} for a, s in res.trace]))
@@ -362,6 +383,9 @@ def run_c32(ctx):
     missing = [a for a in ACTIONS if not counts.get(a)]
     if missing or len(kinds) < (10 if nbeh >= 500 else 3):
         raise tlc.TlcError("vacuous simulation: actions never taken: %s; structured breakages seen: %s" % (missing, sorted(kinds)))
+    nums = num_counts(prefix)
+    if nbeh >= 500 and not all(nums.get(f) for f in ("length", "chunksize", "status", "version")):
+        raise tlc.TlcError("vacuous simulation: numeric fields never broken: %r" % nums)
     for a, n in counts.items():
         ctx.actions.setdefault(a, [0, 0])[1] += n
     table = json.load(open(table_path))
@@ -425,7 +449,7 @@ def run_c32(ctx):
     ctx.exhaustive = False
     ctx.extra.update({"behaviours_simulated": len(behs), "behaviours_executed": nexec, "reference_runs": nref,
                       "server_behaviours": by_kind["server"], "client_behaviours": by_kind["client"], "tampered": tampered,
-                      "structured_breakages": kinds, "traces_accepted": len(out.accepted),
+                      "structured_breakages": kinds, "numeric_breakages": nums, "traces_accepted": len(out.accepted),
                       "distinct_nontrivial": nexec, "evaluations": sum(len(e) for _, e in trs)})
 
 
